@@ -87,6 +87,21 @@ CHECKS = {
  "C31": dict(tech=TECH+"exhaustive finite-domain exploration of each tool's action closure over (--dtls, --insecure value/presence, --auth or --user presence/emptiness); guard rule and per-iteration event-order rule for CONNECT/AUTH in the client library",
    text="All flag/env combinations are decided (the abstract domain is finite and fully enumerated; env aliases are part of the flag declarations), plus AUTH-iff-user and AUTH-right-after-every-CONNECT for two loop iterations of the connect routine. That DTLS actually encrypts is not decided.",
    note="Trusted: go/ssa, urfave/cli (Bool/IsSet semantics, environment aliases).", ref="4/C31"),
+ "C15": dict(tech=TECH+"allocation-site rule for the accept loop (captured variables, per-iteration handler construction, own broker dial), who-may-write rule for everything shared between sessions (configuration struct, predefined-topics maps, configured slices and their aliases), no-mutable-package-state rule",
+   text="Data isolation for all interleavings: a handler shares with other sessions only the configuration, the predefined-topics maps and configured byte slices, and the rule shows that no instruction reachable in the repository writes to any of them after construction; no package-level variable is assigned outside init. No shared mutable state implies no interference through memory; interference through resource exhaustion or through the broker is not decided.",
+   note="Trusted: go/ssa. Shared objects are identified by type and field (configuration struct fields, map-typed PredefinedTopics, []byte fields assigned from configuration), not by names of helpers.", ref="4/C15"),
+ "C23": dict(tech=TECH+"constructor-discipline rule for every composite literal of a packet type, type-flow sets of both MQTT-SN senders against the per-direction type table and the peer's dispatcher cases, codec length-formula rule (shared with C21), who-may-write rule for connections, must-pass-through size guard in the senders (constant <= transport maximum) and uint16 narrowing rule",
+   text="Form, direction, length-field and size-bound clauses for all histories: only constructor/decoder-built packets reach a sender, each side only sends types the other side handles, the length field equals the bytes written for every type and variant, one packet per datagram through the single sender, and every datagram passes a comparison against the transport maximum before it is written.",
+   note="Trusted: go/ssa, bytes.Buffer. Type-flow is field-based and fails closed on unknown flows.", ref="4/C23"),
+ "C24": dict(tech=TECH+"taint rules (sources: fields of decoded MQTT-SN packets; sinks: fields of MQTT packets reaching the MQTT sender; sanitisers: dominating guards evaluated over the 2-bit QoS domain and over the two wildcard predicates), phase-relation search shared with C09 for the will order, constant rules for protocol name/level and packet construction",
+   text="No client-controlled value reaches a broker-bound field unsanitised: QoS fields bounded to 0-2, PUBLISH topics from lawful producers and wildcard-free, SUBSCRIBE/UNSUBSCRIBE filters non-empty, CONNECT will fields consistent with the will flag, PasswordFlag only with UsernameFlag, every packet built by NewControlPacket with the constant code of its asserted type. UTF-8 well-formedness of names and paho's encoder are not decided.",
+   note="Trusted: go/ssa, paho's encoder and NewControlPacket table.", ref="4/C24"),
+ "C25": dict(tech=TECH+"panic-site enumeration over packages gateway, client, transactions, topics, util: type-flow argument for every unchecked assertion (per transaction family and guarding state), compiler prove pass (-d=ssa/check_bce) or dominating length guard for index/slice, lockset for shared plain maps and for pointer fields reset to nil",
+   text="Every instruction that can panic on a packet-handling path is enumerated and needs a named argument, so a green result covers all packet sequences for the enumerated panic sources (failed assertion, index/slice out of range, explicit panic, nil pointer left by a concurrent reset, concurrent map write). Panics inside dependencies and resource exhaustion are not decided. The sleep transaction's DISCONNECT pointer reset is a known finding.",
+   note="Trusted: go/ssa, the installed compiler's bounds-check elimination.", ref="4/C25"),
+ "C32": dict(tech=TECH+"sibling comparison of all topic resolver sites of client library, gateway and CLI tools (callee + argument origins per topic-ID type), origin tracing of the client identity on both ends, C05's lookup-consistency rules and C21's short-topic codec rule re-run",
+   text="Both endpoints compute the ID<->name mapping with the same functions on the same key for every topic-ID type and every configuration; that both ends were given the same configuration is the operator's responsibility and is not decided.",
+   note="Trusted: go/ssa.", ref="4/C32"),
 }
 
 NA = {
